@@ -36,7 +36,7 @@ here = os.path.dirname(os.path.abspath(__file__))
 for l in open(os.path.join(here, '..', 'properties.jsonl')):
     d = json.loads(l)
     pid = d['id']
-    if pid == 'C18':
+    if pid == 'C18' and '--with-c18' not in sys.argv:
         continue
     t = (T.replace('@OUT@', OUT).replace('@ID@', pid).replace('@TITLE@', d['title']).replace('@STATEMENT@', d['statement'])
          .replace('@QUANT@', d['quantifier']['text']).replace('@ANCHORS@', json.dumps(d['anchors'])))
